@@ -461,7 +461,16 @@ fn wrap_script(r: &mut Rng, _index: u64, _tier: Tier) -> (CaseCfg, Vec<Step>) {
         });
     }
     if release_phase {
-        s.push(Step::Broker(BrokerAct::Release { n: 99, order: Order::Fifo }));
+        // the broker answers with PUBREC: plain, or (half of the time) the long form with the
+        // success code 0x10 "No matching subscribers" - the exchange goes on either way
+        if r.chance(1, 2) {
+            for k in 0..n_long {
+                let pid = ((base as u32 - 1 + k as u32) % 65535 + 1) as u16;
+                s.push(Step::Broker(BrokerAct::Send(crate::refcodec::SPacket::PubRec { pid, reason: Some(0x10), props: None })));
+            }
+        } else {
+            s.push(Step::Broker(BrokerAct::Release { n: 99, order: Order::Fifo }));
+        }
         for _ in 0..2 * n_long + 1 {
             s.push(poll0());
         }
@@ -809,7 +818,7 @@ pub fn all() -> Vec<Box<dyn Check>> {
         level: "fault_enumeration",
         rule: "per accepted QoS 1 message the recorded history is checked for: at most one transmission per connection, byte identity except DUP, DUP clear on the accepting and set on later connections, acceptance order on the wire, no transmission after its PUBACK was consumed, exactly one replay on every resumed connection on which the client went idle, completion after the benign continuation. Workloads: (sweep) generated base programs with withheld/reordered/failed acks re-executed once per I/O call index of every connection with the connection killed there (ConnectionReset, EOF, TimedOut, BrokenPipe, Interrupted, Other in rotation), each followed by the program's own resumed/fresh reconnects and the benign continuation; (plain) random histories with random faults, broker DISCONNECT/close, handle drop/forget/into_inner, cancellations. Non-trivial iff at least one retransmission on a later connection was observed; keys = fault kinds.",
         assumptions: COMMON_ASSUME.to_vec(),
-        workloads: vec![("crash-sweep", 120, 12_000, replay_heavy as ProfileFn), ("replay-heavy", 4000, 400_000, replay_heavy), ("general", 2000, 200_000, general)],
+        workloads: vec![("crash-sweep", 120, 12_000, replay_heavy as ProfileFn), ("replay-heavy", 4000, 400_000, replay_heavy), ("general", 2000, 200_000, general), ("keepalive-mix", 1500, 150_000, keepalive_mix)],
         monitor: m::c02::check,
         max_steps: 50,
         epilogue_polls: 40,
@@ -825,7 +834,7 @@ pub fn all() -> Vec<Box<dyn Check>> {
         level: "fault_enumeration",
         rule: "as C02 for QoS 2: several exchanges in different phases, PUBREC/PUBCOMP released in arbitrary order, failure codes; (sweep) the connection is killed at every I/O call index of QoS 2-heavy base programs, i.e. between any two of the four steps of every exchange; PUBREL only after a successful PUBREC, never PUBLISH after PUBREC, failing PUBREC ends the exchange and is surfaced, exactly one PUBREL replay per resumed drained connection, replay order = PUBREC arrival order. Non-trivial iff a resumed connection started with at least one exchange in the release phase.",
         assumptions: COMMON_ASSUME.to_vec(),
-        workloads: vec![("crash-sweep", 120, 12_000, qos2_heavy as ProfileFn), ("qos2-heavy", 4000, 400_000, qos2_heavy), ("general", 2000, 200_000, general)],
+        workloads: vec![("crash-sweep", 120, 12_000, qos2_heavy as ProfileFn), ("qos2-heavy", 4000, 400_000, qos2_heavy), ("general", 2000, 200_000, general), ("keepalive-mix", 1500, 150_000, keepalive_mix)],
         monitor: m::c03::check,
         max_steps: 50,
         epilogue_polls: 40,
@@ -973,10 +982,18 @@ pub fn all() -> Vec<Box<dyn Check>> {
         required: vec!["too_large_refusals", "mandatory_packet_did_not_fit", "oversize_inbound_rejected", "acks_owed_under_tiny_limit"],
         exhaustive: false,
     }),
-    gen_check!("C18", "exploration",
-        "status of every operation handle is queried after every step and compared with a reference model (pending until the final ack was consumed in the issuing session, invalidated once a fresh-session CONNACK was consumed); failure codes must surface as Rejected from the consuming call. Non-trivial iff a status transition was observed.",
-        COMMON_ASSUME.to_vec(),
-        vec![("acks-heavy", 4000, 2_000_000, acks_heavy as ProfileFn), ("general", 2000, 1_000_000, general)],
-        m::c18::check, 70, 0, (200, 2000), vec!["probes_compared", "rejections_surfaced"]),
+    Box::new(MixCheck {
+        id: "C18",
+        level: "exploration",
+        rule: concat!("status of every operation handle is queried after every step and compared with a reference model (pending until the final ack was consumed in the issuing session, invalidated once a fresh-session CONNACK was consumed); failure codes must surface as Rejected from the consuming call. Non-trivial iff a status transition was observed.", " Workload `wrap`: the identifier counter wraps with older operations outstanding (C07's script), so that handles are queried while the in-flight lists are not in identifier order."),
+        assumptions: COMMON_ASSUME.to_vec(),
+        workloads: vec![("acks-heavy", 4000, 2_000_000, Source::Gen(acks_heavy)), ("general", 2000, 1_000_000, Source::Gen(general)), ("wrap", 600, 300_000, Source::Script(wrap_script))],
+        monitor: m::c18::check,
+        max_steps: 70,
+        epilogue_polls: 0,
+        min_nt: (200, 2000),
+        required: vec!["probes_compared", "rejections_surfaced", "probes_after_identifier_wrap"],
+        exhaustive: false,
+    }),
     ]
 }
